@@ -509,13 +509,13 @@ def step (writable : Bool) : Cur → Op → M (Out × Cur)
   | rev r, .raw => .ok (.dump "rev" r.inner.buf r.inner.pos, rev r)
   | rev r, .bmSet ws => .ok (.ok, rev (r.bufMutSet ws))
 
-/-- a whole history; stops at the first fault (outputs so far, the fault) -/
-def run (writable : Bool) : Cur → List Op → List Out → (List Out × Except Fault Cur)
-  | s, [], acc => (acc.reverse, .ok s)
-  | s, op :: ops, acc =>
+/-- a whole history: the outputs up to the first fault, and the final state or the fault -/
+def run (writable : Bool) : Cur → List Op → List Out × Except Fault Cur
+  | s, [] => ([], .ok s)
+  | s, op :: ops =>
     match step writable s op with
-    | .ok (o, s') => run writable s' ops (o :: acc)
-    | .error f => (acc.reverse, .error f)
+    | .ok (o, s') => (o :: (run writable s' ops).1, (run writable s' ops).2)
+    | .error f => ([], .error f)
 
 end Cur
 
@@ -587,6 +587,14 @@ def step : Backend → Op → M (Out × Backend)
   | cbI cb, .full => .ok (.bool true, cbI cb)
   | cbI cb, .raw => .ok (.dump "cb" cb.log cb.calls, cbI cb)
   | cbI cb, _ => .ok (.unsupported, cbI cb)
+
+/-- a whole protocol line: outputs up to the first fault, and the final state or the fault -/
+def run : Backend → List Op → List Out × Except Fault Backend
+  | b, [] => ([], .ok b)
+  | b, op :: ops =>
+    match step b op with
+    | .ok (o, b') => (o :: (run b' ops).1, (run b' ops).2)
+    | .error f => ([], .error f)
 
 end Backend
 
